@@ -134,12 +134,14 @@ Definition le_path (le:lentry) : path := fst (fst le) ++ [snd (fst le)].
 Definition file_entries (T:node) (es:list entry) : list entry := filter (fun e => negb (is_dirlike T (snd e))) es.
 Definition files_here (T:node) (d:path) (es:list entry) : list lentry :=
   map (fun e => (d, fst e, snd e)) (file_entries T es).
-(* `names = {filename.split(".")[0] for filename in files}`; everything os.listdir(__pycache__) returns whose
-   stem is not among them *)
+(* filename.endswith((".py", ".pyc", ".pyo")) *)
+Definition py_suffixed (n:str) : bool := suffixb s_py n || suffixb s_pyc n || suffixb s_pyo n.
+(* `names = {filename.split(".")[0] for filename in files if filename.endswith((".py", ".pyc", ".pyo"))}`;
+   everything os.listdir(__pycache__) returns whose stem is not among them *)
 Definition pycache_here (T:node) (d:path) (es:list entry) : list lentry :=
   match find_entry s_pycache es with
   | Some (Dir ces) =>
-      let names := map (fun e => stem (fst e)) (file_entries T es) in
+      let names := map (fun e => stem (fst e)) (filter (fun e => py_suffixed (fst e)) (file_entries T es)) in
       map (fun e => (d ++ [s_pycache], fst e, snd e)) (filter (fun e => negb (mem_str (stem (fst e)) names)) ces)
   | _ => []
   end.
@@ -305,15 +307,17 @@ Fixpoint split_legacy (skipping:bool) (s:str) : list str :=
   end.
 Definition nonempty (s:str) : bool := match s with [] => false | _ => true end.
 
-(* the `version_locations` argument from_config passes to ScriptDirectory *)
+(* the `version_locations` argument from_config passes to ScriptDirectory:
+     legacy:    [x for x in _split_on_space_comma.split(s) if x]
+     otherwise: [x.strip() for x in s.split(split_char) if x.strip()] *)
 Definition split_locations (sp:sep) (s:option str) : res (option (list str)) :=
   match s with
   | None | Some [] => Ok None
   | Some s =>
       match sp with
       | SepBad => Err EValue
-      | SepNone => Ok (Some (split_legacy false s))
-      | _ => Ok (Some (map strip (filter nonempty (split_on (sep_char sp) s))))
+      | SepNone => Ok (Some (filter nonempty (split_legacy false s)))
+      | _ => Ok (Some (map strip (filter (fun x => nonempty (strip x)) (split_on (sep_char sp) s))))
       end
   end.
 
